@@ -722,7 +722,8 @@ class CSSSerializer:
             for item in rule.seq:
                 type_, val = item.type, item.value
                 # PRE
-                if '}' == val:
+                # (a STRING or URI whose content is a brace is no block end)
+                if '}' == val and type_ in ('CHAR', '}'):
                     # close last open item on stack
                     stackblock = stacks.pop().value()
                     if stackblock:
@@ -739,7 +740,7 @@ class CSSSerializer:
                     out.append(val, type_)
 
                 # POST
-                if '{' == val:
+                if '{' == val and type_ == 'CHAR':
                     # new stack level
                     stacks.append(Out(self))
 
